@@ -5,6 +5,8 @@
    of the condition variable (an enabled step is eventually taken; no infinite run of
    spurious wake-ups) is assumed, not modelled. *)
 From Coq Require Import List ZArith Bool Lia.
+From Tulz Require Import RaceModel AtomicSections.
+From TulzGen Require Import Accesses.
 From Tulz Require Import Common ResourceModel ResourceInv ResourceProofs.
 Import ListNotations.
 Local Open Scope Z_scope.
@@ -57,3 +59,15 @@ Example C02_nonvacuous :
   exists c, cexec true (cinit [[Wr; Rd]; [Rd]]) [Req 0 Wr; Req 1 Rd; Rel 0; Notify 0; Req 0 Rd; Rel 0] = Some c
             /\ finished c = false /\ can_progress true c = true /\ measure c = 4.
 Proof. eexists. vm_compute. repeat split; reflexivity. Qed.
+
+(* The premise of the atomic-step model, checked on the access rows the translator extracted from the
+   CURRENT source (TulzGen.Accesses, regenerated on every run): every access to the Resource's state in
+   Resource::lock / Resource::unlock (and the helpers they call) is made holding m_mutex, hence no two
+   threads are ever inside those sections at once (AtomicSections.v). *)
+Theorem C02_sections_atomic : forall n os t1 t2 a1 a2,
+  t1 <> t2 -> In a1 TulzGen.Accesses.extracted_accesses -> In a2 TulzGen.Accesses.extracted_accesses ->
+  RaceModel.a_comp a1 = resource_component -> RaceModel.a_comp a2 = resource_component ->
+  RaceModel.can_perform (RaceModel.lrun (RaceModel.linit n) os) t1 a1 ->
+  RaceModel.can_perform (RaceModel.lrun (RaceModel.linit n) os) t2 a2 -> False.
+Proof. apply (AtomicSections.sections_exclusive resource_component resource_mutex). vm_compute. reflexivity. Qed.
+Print Assumptions C02_sections_atomic.
